@@ -109,7 +109,8 @@ pub(crate) async fn execute_selection_set<'a>(
     for (&response_key, fields) in &grouped_field_set {
         // Indexing should not panic: `collect_fields` only creates a `Vec` to push to it
         let field_name = &fields[0].name;
-        let Ok(field_def) = ctx.schema.type_field(&object_type.name, field_name) else {
+        let schema: &'a Valid<Schema> = ctx.schema;
+        let Ok(field_def) = schema.type_field(&object_type.name, field_name) else {
             // TODO: Return a `validation_bug`` field error here?
             // The spec specifically has a “If fieldType is defined” condition,
             // but it being undefined would make the request invalid, right?
@@ -237,7 +238,7 @@ async fn execute_field<'a>(
     mode: ExecutionMode,
     object_type: &ObjectType,
     object_value: MaybeAsyncObject<'_>,
-    field_def: &FieldDefinition,
+    field_def: &'a FieldDefinition,
     fields: &[&'a Field],
 ) -> Result<Option<JsonValue>, PropagateNull> {
     let field = fields[0];
@@ -272,7 +273,7 @@ async fn execute_field<'a>(
         },
     };
     let completed_result = match resolved_result {
-        Ok(resolved) => complete_value(ctx, path, mode, field.ty(), resolved, fields).await,
+        Ok(resolved) => complete_value(ctx, path, mode, &field_def.ty, resolved, fields).await,
         Err(FieldError { message }) => {
             ctx.errors.push(GraphQLError::field_error(
                 format!("resolver error: {message}"),
